@@ -203,6 +203,10 @@ def run_unit(unit, outdir, rlimit=30, repo=None):
     for fn, fl in fails_by_fn.items():
         if fn in res["functions"] and res["functions"][fn]["canary"]:
             continue
+        if any("guard_" in (f.get("text") or "") or "guard_" in (f.get("rendered") or "") for f in fl) and fn.startswith("<"):
+            fl[:] = [f for f in fl if "guard_" not in (f.get("rendered") or "")]
+            if not fl:
+                continue
         if fn in ro_fns:
             continue
         real.extend(fl)
@@ -210,6 +214,10 @@ def run_unit(unit, outdir, rlimit=30, repo=None):
     for p_, f in res["functions"].items():
         if not f["canary"] and f["success"] is False and p_ not in fails_by_fn and p_ not in ro_fns:
             real.append(dict(fn=p_, obligation="%s::%s" % (unit, p_), message="verification failed (no classified diagnostic)", line=0, text="", clause=None, rendered="", origin=f["origin"]))
+    guards = [k for k in aux_fail if k.split("::")[-1].startswith("guard_")]
+    aux_fail = [k for k in aux_fail if k not in guards]
+    if guards:
+        res["undecided_reason"] += " coverage guard failed (proof was done for other constants): %s" % guards
     for k in aux_fail:
         if k not in ro_fns and not any(x["fn"] == k for x in real) and ("<" + k) not in str(real):
             real.append(dict(fn=k, obligation="%s::%s" % (unit, k), message="auxiliary lemma/proof failed", line=0, text="", clause=None, rendered="", origin="contracts"))
